@@ -244,7 +244,10 @@ PROPERTIES = {
                     'loop_in_thread returns only after observing is_running(); its stop function schedules loop.stop '
                     'thread-safely and joins the loop thread',
         assumptions=['only these helpers run the loops concerned (lock discipline is proved for them, not for '
-                     'arbitrary user code)', 'wrap_future / run_in_executor are outcome-preserving bridges'],
+                     'arbitrary user code)', 'wrap_future / run_in_executor are outcome-preserving bridges',
+                     'fewer than 32 loops are borrowed through ensure_aw or run through loop_in_thread at any one time '
+                     '(capacity of the shared pool; the obligation resource.cross_loop_pool_has_a_fixed_capacity_of_'
+                     'at_least_32 keeps the constant from shrinking or depending on the host)'],
         not_decided=['"every ensure_aw call completes when its awaitable does" is liveness; its safety kernel '
                      'pre(run_coroutine_threadsafe).target_keeps_running FAILS on the current tree (known finding D8)'],
     ),
